@@ -222,3 +222,20 @@ fn f14_ro_mutators() {
 
 #[allow(dead_code)]
 fn unused(_: Freelist) {}
+
+// F12b: discard_freelist after the counter is close to u32::MAX
+#[test]
+fn f12b_discard_freelist_wrap() {
+  fn run<A: Allocator>(a: A) -> (u32, u32) {
+    let b1 = a.alloc_bytes(100).unwrap();
+    let mut b2 = a.alloc_bytes(100).unwrap();
+    unsafe { b2.detach() };
+    drop(b1); // becomes a segment
+    a.increase_discarded(u32::MAX - 50);
+    let r = a.discard_freelist().unwrap();
+    (r, a.discarded())
+  }
+  let s = run(opts(1024).alloc::<sync::Arena>().unwrap());
+  let u = run(opts(1024).alloc::<unsync::Arena>().unwrap());
+  assert_eq!(s, u);
+}
